@@ -136,6 +136,9 @@ func runC10(c *Ctx, tier string) {
 	spillPeekerCopy(c, "C10-S3")
 	// P1
 	aggPartialsTotal(c, "C10-P1")
+	// P2
+	c.Rule("C10-P2", "partials are consumed element by element independently: in every function of the aggregate package that iterates container elements, no zed.Type derived from one element is carried (loop-header phi) into the decoding of the next")
+	runElementIndependence(c, "C10-P2", "runtime/sam/expr/agg")
 }
 
 func recvType(cc *ssa.CallCommon) types.Type {
@@ -220,4 +223,64 @@ func init() {
 	register(&PropertyDef{ID: "C10", Run: runC10,
 		Explanation: "Decides structural conditions behind memory-limit independence of aggregation and join: aggregate and group state never alias input batches (W1), the group key includes the key types (K1), values obtained from spill files and join inputs are copied before the reader overwrites them or before they escape (W3, S3), partial forms exist for every aggregate (P1). Does NOT decide the aggregates' arithmetic, partial composition, sorted-input early release or join semantics.",
 		Assumptions: []string{"zio.Reader contract: a value is valid until the next Read on the same reader", "calls leaving the package do not retain arguments"}})
+}
+
+// runElementIndependence: C10-P2.  When a partial (or any container) is consumed element by
+// element, how element k is decoded must not depend on what element k-1 decoded to: the
+// type used for an element comes from the container's type, never from a variable carried
+// around the loop.
+func runElementIndependence(c *Ctx, rule string, pkgs ...string) {
+	p := c.P
+	n := 0
+	for _, fn := range p.FuncsIn(pkgs...) {
+		// loops that iterate a zcode.Iter
+		var nexts []*ssa.Call
+		for _, ci := range allCalls(fn) {
+			if calleeName(ci.Common()) == "(*zcode.Iter).Next" {
+				if call, ok := ci.(*ssa.Call); ok && inCycle(fn, call) {
+					nexts = append(nexts, call)
+				}
+			}
+		}
+		if len(nexts) == 0 {
+			continue
+		}
+		n++
+		bad := false
+		for _, b := range fn.Blocks {
+			for _, in := range b.Instrs {
+				phi, ok := in.(*ssa.Phi)
+				if !ok || namedOf(phi.Type()) != "super.Type" {
+					continue
+				}
+				// a loop-header phi: some incoming edge comes from a block that the phi's block reaches
+				for i, e := range phi.Edges {
+					pred := b.Preds[i]
+					back := pred == b || reachesBlock(b, pred, nil)
+					if !back || !b.Dominates(pred) {
+						continue
+					}
+					// the carried value is computed from an element of the iteration
+					fromElem := dependsOn(e, func(v ssa.Value) bool {
+						for _, nx := range nexts {
+							if v == ssa.Value(nx) {
+								return true
+							}
+						}
+						return false
+					})
+					if fromElem {
+						bad = true
+						c.Fail(rule, constructName(fn)+" element decoding", phi.Pos(), "the type used to decode an element is carried over from the previous element (it was derived from that element's bytes): after the first union-typed element is untagged, later elements are interpreted with the wrong type, so a partial result is recombined into garbage")
+					}
+				}
+			}
+		}
+		if !bad {
+			c.OK(rule, constructName(fn)+" element decoding", fn.Pos(), "no element-derived type is carried across iterations")
+		}
+	}
+	if n < 3 {
+		c.Undecided(rule, "element loops", "fewer than 3 functions iterating container elements found")
+	}
 }
